@@ -11,11 +11,13 @@ import (
 	"go.opentelemetry.io/collector/verifharness/vt"
 )
 
-// Probe for a squash-embedded struct that implements confmap.Unmarshaler and
-// holds a secret.  confmap's unmarshalerEmbeddedStructsHookFunc calls the
-// embedded Unmarshal, then MARSHALS the embedded struct and merges the
-// resulting map back into the input before the outer struct is decoded — and
-// marshalling turns every configopaque.String into "[REDACTED]".
+// Regression check for a squash-embedded struct that implements
+// confmap.Unmarshaler and holds a secret.  Until fix 7a2e9da6b confmap's
+// unmarshalerEmbeddedStructsHookFunc called the embedded Unmarshal, then
+// MARSHALLED the embedded struct and merged the resulting map back into the
+// input before the outer struct was decoded — and marshalling turns every
+// configopaque.String into "[REDACTED]", which became the stored secret.
+// A recurrence is a violation (signature roundtrip/squash-embedded-unmarshaler).
 
 type EmbUnmA struct {
 	Token configopaque.String `mapstructure:"token"`
@@ -63,7 +65,7 @@ type EmbScript struct {
 	Extra  []byte `json:"extra"`
 }
 
-var cEmb = newC("squash-embedded-unmarshaler-probe")
+var cEmb = newC("squash-embedded-unmarshaler")
 
 func genEmb(t *rapid.T) EmbScript {
 	return EmbScript{Outer: rapid.SampledFrom([]string{"embedded", "named", "plain"}).Draw(t, "outer"), Token: genSecret(t), Header: genSecret(t), Extra: genSecret(t)}
@@ -106,15 +108,11 @@ func runEmb(s EmbScript) (bool, string, *vt.Finding) {
 			// root cause: the marshal-and-merge step of unmarshalerEmbeddedStructsHookFunc
 			sig = "roundtrip/squash-embedded-unmarshaler"
 		}
-		f := vt.Failf(sig, "%s: secrets of the squash-embedded Unmarshaler are stored as %q / %q, configured %q / %q", s.Outer, got[0], got[1], want[0], want[1])
-		if cEmb.Soft(f, s) {
-			return true, key, nil
-		}
-		return true, key, f
+		return true, key, vt.Failf(sig, "%s: secrets of the squash-embedded Unmarshaler are stored as %q / %q, configured %q / %q", s.Outer, got[0], got[1], want[0], want[1])
 	}
 	return true, key, nil
 }
 
 func TestSquashEmbeddedUnmarshaler(t *testing.T) {
-	vt.Run(t, cEmb, vt.N(300, 20000), genEmb, runEmb)
+	vt.Run(t, cEmb, vt.N(600, 40000), genEmb, runEmb)
 }
